@@ -137,8 +137,9 @@ def plan(scn, ref, extra_tail=True):
             k = session.effective_kind(items + [mv], len(items))
             rendered = ["blank"] if mv[0] == "blank" else ["comment", " again"]
         if k == "step":
-            if net >= L and not allow_fail:
-                continue
+            if net >= L and not allow_fail and not ref.finished:
+                continue        # the next step is the reference's failing one
+            # (at the end of a finished script the step is delivered: it must be refused and change nothing)
             net = min(net + 1, L)
         elif k == "rewind":
             net = predict_rewind(ref, net)
